@@ -26,7 +26,7 @@ func scenarios(tier string) []engine.Scenario {
 	seqDepth, qpDepth, terDepth, gauDepth := 4, 3, 3, 3
 	momentsReads := 4096
 	if thorough {
-		seqDepth, qpDepth, terDepth, gauDepth = 5, 4, 5, 4
+		seqDepth, qpDepth, terDepth, gauDepth = 6, 5, 6, 5
 		momentsReads = 1 << 16
 	}
 	for _, ch := range chains {
@@ -46,7 +46,7 @@ func scenarios(tier string) []engine.Scenario {
 		ps = append(ps, 1.0/3, 0.9, 0.03125, 0.999)
 	}
 	for _, P := range ps {
-		scs = append(scs, ternaryKYScenario(P))
+		scs = append(scs, ternaryKYScenario(P), ternaryKYJointScenario(P))
 		for _, ch := range []chainT{tinyChain(), mixedChain()} {
 			scs = append(scs, ternaryKYSupportScenario(P, ch))
 		}
